@@ -797,4 +797,50 @@ Section Protocol.
     - exists b2, b1; auto.
     - exists c2, c1; auto.
   Qed.
+  (* ---------- the decision rules never block progress (C05, rule level) ---------- *)
+
+  (* a well-formed proposal whose QC block is at least as high as the replica's lock can be voted *)
+  Theorem vote_enabled s r b c1 :
+    reach s -> honest r = true ->
+    U s (b_hash b) = Some b -> lastVoted (loc s r) < b_view b ->
+    U s (b_qc b) = Some c1 -> certified s (b_qc b) ->
+    b_parent b = b_qc b -> b_view c1 < b_view b ->
+    (b_qc b = b_hash genesis \/ exists c2, U s (b_qc c1) = Some c2) ->
+    b_view (lock (loc s r)) <= b_view c1 ->
+    step s (cast_vote s r b).
+  Proof.
+    intros R Hr Eb Lv Ec1 Cq Par Vc Av Lk.
+    pose proof (reach_inv _ R) as I. pose proof (reach_uwf _ R) as W.
+    eapply (step_vote s r b c1); auto.
+    unfold vote_rule. destruct rs; [|exact Lk].
+    destruct (N.eq_dec (b_view (lock (loc s r))) (b_view c1)) as [Q|Q]; [|left; lia].
+    right. destruct (i_lock _ I r Hr) as [[Lin Lc] _].
+    assert (b_hash (lock (loc s r)) = b_qc b) by (eapply (one_per_view s W I); eauto).
+    assert (c1 = lock (loc s r)) by congruence. subst c1.
+    econstructor; [rewrite Par; eauto|constructor].
+  Qed.
+
+  (* once a three-chain exists, every honest replica can commit its tail *)
+  Theorem commit_enabled s r b3 b2 b1 :
+    reach s -> honest r = true -> three_chain s b3 b2 b1 ->
+    exists l,
+      segment (U s) b3 (b_view (head (loc s r))) l /\
+      step s (set_loc s r {| lastVoted := lastVoted (loc s r); lock := lock (loc s r);
+                             head := if b_view (head (loc s r)) <? b_view b3 then b3 else head (loc s r);
+                             log := log (loc s r) ++ l |}) /\
+      (b_view (head (loc s r)) < b_view b3 -> exists l', l = l' ++ [b3]).
+  Proof.
+    intros R Hr T.
+    pose proof (reach_inv _ R) as I. pose proof (reach_uwf _ R) as W.
+    pose proof (three_chain_certs s W I _ _ _ T) as (C2 & C3 & Q1 & Q2).
+    assert (G3 : good s b3) by (split; auto; apply T).
+    destruct (Core.segment_exists (U s) (good s) genesis W genesis_view (good_genesis s I) (i_nogp _ I)
+                (good_in s) (good_parent s W I) (good_unique s W I) b3 G3 (b_view (head (loc s r)))) as (l & Sl).
+    exists l. split; [exact Sl|]. split.
+    - eapply (step_commit s r b3 b2 b1 l); auto.
+      destruct T as (E1 & E2 & E3 & P1 & P2 & V2 & V1 & C1).
+      unfold commit_rule. rewrite Q1, Q2. repeat split; auto.
+      destruct rs; [repeat split; auto | lia].
+    - intros Hlt. inversion Sl; subst; [lia|eauto].
+  Qed.
 End Protocol.
